@@ -130,7 +130,7 @@ def _field_for(rng, p, params, opts):
     if p == "Bag":
         return {"N": rng.pick(["x", "y"]), "S": "t", "N2": "xy", "N3": "xyc"}[params["range"]]
     if p == "Categorize":
-        return "s"
+        return "b" if rng.chance(opts.get("bool_categories", 0.12)) else "s"  # boolean categories are allowed as well
     if p in ("Select", "Fraction"):
         return rng.pick(opts["cut_fields"])
     return rng.pick(["x", "x", "y"])
@@ -302,7 +302,13 @@ def _mk_q(q, node, qreg=None):
         # one wrapper object used by several nodes / trees (C17): mode "cached" or "plain"
         key = (q["id"], q.get("mode", "cached"))
         if key not in qreg:
-            fn = gate.make_lambda(1000 + q["id"], q["f"])
+            if q.get("fn") == "sign":
+                # a function that tells 0.0 from -0.0 (and works on scalars and arrays alike)
+                import numpy
+
+                fn = eval('lambda d: _gate(%d, _np.copysign(1.0, d["%s"]))' % (1000 + q["id"], q["f"]), {"_gate": gate._gate, "_np": numpy})
+            else:
+                fn = gate.make_lambda(1000 + q["id"], q["f"])
             qreg[key] = cached(fn) if q.get("mode", "cached") == "cached" else fn
         return qreg[key]
     if q["kind"] == "expr":
@@ -536,7 +542,9 @@ def critical_values(s, regime="dyadic"):
 
 PLAIN = [0.0, 0.5, 1.0, -1.0, 1.5, 2.25, -0.75, 3.0, -2.5, 0.125, 4.0, -4.0, 16.0, -16.0]
 SPECIAL = [float("nan"), float("inf"), float("-inf")]
+# categories: ordinary strings plus, rarely, names that collide with keyword parameters of ed() or with keys of the format
 STRINGS = ["a", "b", "c", "dd", "e f", "Z"]
+AWKWARD_STRINGS = ["entries", "contentType", "binsAsDict", "bins", "nan", "inf", "", "True", "0"]
 CUTS = [True, False, 1.0, 0.0, 0.5, 2.0, -1.0, float("nan"), 0.25]
 POS_WEIGHTS = [1.0, 1.0, 1.0, 0.5, 2.0, 0.25, 4.0, 1.5]
 ODD_WEIGHTS = [0.0, -1.0, float("nan"), -0.5]
@@ -580,8 +588,11 @@ def gen_record(rng, crit, opts=None):
                 rec[f] = -0.0
     rec["c"] = rng.pick(CUTS[2:]) if opts.get("numeric_cuts") else rng.pick(CUTS)
     rec["b"] = rng.chance(0.6)
-    rec["t"] = rng.pick(STRINGS)
-    if opts.get("no_none"):
+    awk = opts.get("awkward_strings", 0.06)
+    rec["t"] = rng.pick(AWKWARD_STRINGS) if rng.chance(awk) else rng.pick(STRINGS)
+    if rng.chance(awk):
+        rec["s"] = rng.pick(AWKWARD_STRINGS)
+    elif opts.get("no_none"):
         rec["s"] = rng.pick(STRINGS)
     else:
         rec["s"] = rng.pick(STRINGS + [None, float("nan")])
@@ -593,6 +604,8 @@ def enc_float(v):
 
     if isinstance(v, np.generic):
         return {"np": type(v).__name__, "v": enc_float(v.item())}
+    if isinstance(v, str) and v in ("nan", "inf", "-inf"):
+        return {"str": v}  # a category that is spelled like a non-finite number, not the number
     if isinstance(v, float) and v == 0.0 and math.copysign(1.0, v) < 0:
         return {"np": "negzero", "v": 0.0}
     if isinstance(v, float):
@@ -606,6 +619,8 @@ def enc_float(v):
 
 
 def dec_float(v):
+    if isinstance(v, dict) and "str" in v:
+        return v["str"]
     if isinstance(v, dict) and "np" in v:
         import numpy as np
 
@@ -629,7 +644,7 @@ def dec_record(rec):
     out = {}
     for k, v in rec.items():
         if k == "s":
-            out[k] = float("nan") if v == "nan" else v
+            out[k] = float("nan") if v == "nan" else dec_float(v) if isinstance(v, dict) else v
         else:
             out[k] = dec_float(v)
     return out
